@@ -68,9 +68,12 @@ def do_op(op, mutate=False):
         if kind == "die":
             from frame.die.die import Die
             from frame.netlist.netlist import Netlist
-            c = op["die"]
-            nl = Netlist(D.fixed_netlist_tree(c)) if c["fixed"] else None
-            die = Die(D.die_tree(c), nl) if nl is not None else Die(D.die_tree(c))
+            if op.get("dietext") is not None:
+                die = Die(op["dietext"])  # a hand-written YAML document (literal forms, directives)
+            else:
+                c = op["die"]
+                nl = Netlist(D.fixed_netlist_tree(c)) if c["fixed"] else None
+                die = Die(D.die_tree(c), nl) if nl is not None else Die(D.die_tree(c))
             if op.get("split"):
                 die.split_refinable_regions(2.0, op["split"])
             def rs(lst):
@@ -281,9 +284,15 @@ def run_case(c):
         cls.append("history-with-rejected-design")
     if any(h.get("scale", 1) >= 100 for h in hist):
         cls.append("history-100x-larger")
+    if any(h.get("scale", 1) * 100 <= probe.get("scale", 1) for h in hist):
+        cls.append("history-at-a-smaller-scale")
+    if probe.get("big"):
+        cls.append("large-decimal-die-after-small-designs")
+    if any((h.get("note") or "").startswith("yaml-text-with-directive") for h in hist) and (probe.get("note") or "").startswith("yaml-text"):
+        cls.append("yaml-text-probe-after-a-document-with-a-directive")
     if any(h.get("note") == "same-inequalities-other-construction" for h in hist):
         cls.append("history-with-other-robdd-construction")
-    return dict(nt=len(hist) >= 2 and probe["kind"] in fam, cls=cls)
+    return dict(nt=(len(hist) >= 2 and probe["kind"] in fam) or any(h.get("scale", 1) != probe.get("scale", 1) for h in hist) or bool(probe.get("big")), cls=cls)
 
 
 # ---- generation ---------------------------------------------------------------------------------------------------
@@ -293,12 +302,56 @@ def scaled(unit, k):
     return str(int(v)) if v.denominator == 1 else str(float(v))
 
 
+YNAMES = ["A", "B1", "y", "N", "yes", "no", "on", "off", "Y", "n", "true", "null", "M_2", "x"]
+YBOOLS = ["true", "True", "yes", "on", "y", "false", "no"]
+YNUMS = ["10", "010", "1e1", "0o10", "1_0", "10.0", "+10", "0x10", "1:30", "8", "030", "12.5", "1.25e1"]
+YHEAD = ["", "", "", "%YAML 1.1\n---\n", "%YAML 1.2\n---\n", "---\n"]
+
+
 @st.composite
-def op_s(draw, base, allow_scale=True, allow_bad=True):
+def yaml_text_s(draw, what):
+    """A hand-written YAML document: plain (unquoted) names that YAML 1.1 reads as booleans, boolean and number literals in
+    several spellings, optionally a %YAML directive.  Whether such a document is accepted is not the point (many are not): the
+    verdict and what is loaded must not depend on which documents were read before."""
+    head = draw(st.sampled_from(YHEAD))
+    num = lambda: draw(st.sampled_from(YNUMS))
+    if what == "die":
+        t = head + "width: %s\nheight: %s\n" % (num(), num())
+        if draw(st.booleans()):
+            t += "regions: [[%s, %s, %s, %s, %s]]\n" % (draw(st.sampled_from(["4", "04", "4.0"])), draw(st.sampled_from(["3", "03", "3e0"])),
+                                                        draw(st.sampled_from(["2", "02", "2.0"])), draw(st.sampled_from(["2", "0o2", "2"])),
+                                                        draw(st.sampled_from(["dsp", "y", "on", "'#'"])))
+        return t
+    names = draw(st.permutations(YNAMES))[:draw(_i(2, 3))]
+    lines = [head + "Modules:"]
+    for i, n in enumerate(names):
+        k = draw(_i(0, 2))
+        if k == 0:
+            lines.append("  %s: {area: %s, center: [%s, %s]}" % (n, num(), num(), num()))
+        elif k == 1:
+            lines.append("  %s: {fixed: %s, rectangles: [[%s, %s, %s, %s]]}" % (n, draw(st.sampled_from(YBOOLS)), num(), num(), "2", "04"))
+        else:
+            lines.append("  %s: {terminal: %s, center: [%s, %s]}" % (n, draw(st.sampled_from(YBOOLS)), num(), num()))
+    lines.append("Nets: [[%s, %s%s]]" % (names[0], names[1], draw(st.sampled_from(["", ", 2", ", 02", ", 1e0"]))))
+    return "\n".join(lines) + "\n"
+
+
+@st.composite
+def op_s(draw, base, allow_scale=True, allow_bad=True, kinds=None, force_text=False):
     k = draw(st.sampled_from([1, 1, 10, 100, 1000])) if allow_scale else 1
     unit = scaled(base, k)
-    kind = draw(st.sampled_from(FAMILIES + ["netlist", "die"]))
+    kind = draw(st.sampled_from(kinds or (FAMILIES + ["netlist", "die"])))
     op = dict(kind=kind, scale=k, mutate=draw(_i(0, 3)) == 0)
+    if kind in ("netlist", "die") and (force_text or draw(_i(0, 5)) == 0):
+        txt = draw(yaml_text_s(kind))
+        op["note"] = "yaml-text" + ("-with-directive" if txt.startswith("%") else "")
+        if kind == "netlist":
+            op["doc"] = txt
+        else:
+            op["dietext"] = txt
+            op["die"] = None
+            op["split"] = 0
+        return op
     if kind == "netlist":
         t = draw(_i(0, 7)) if allow_bad else 5
         if t == 0:
@@ -386,8 +439,39 @@ def case_s(draw):
     return dict(probe=probe, history=hist)
 
 
+GEOMETRIC = ["netlist", "die", "die", "alloc", "stog"]
+
+
+@st.composite
+def scales_s(draw):
+    """Geometric operations only, decimal units, probe and history at different scales in either order: the class-wide
+    tolerances are set by whichever design comes first, and no verdict or region may depend on that."""
+    base = draw(st.sampled_from(["0.1", "0.1", "0.3", "0.7", "1.1", "0.5", "1"]))
+    mode = draw(_i(0, 3))
+    if mode == 3:
+        # hand-written YAML documents only (literal forms, plain names, %YAML directives), probe and history
+        probe = draw(op_s(base, allow_scale=False, kinds=["netlist", "die"], force_text=True))
+        probe["mutate"] = False
+        hist = [draw(op_s(base, allow_scale=False, kinds=["netlist", "die"], force_text=draw(_i(0, 3)) > 0)) for _ in range(draw(_i(1, 3)))]
+        return dict(probe=probe, history=hist)
+    if mode == 0:
+        # a die of 100-800 lattice units (decimal coordinates at an ordinary size, e.g. 33.3 x 40.6 on a 120 x 100 die) probed
+        # after designs of 1-12 units on the same lattice: dimensions within a factor of 1000
+        probe = dict(kind="die", scale=1, mutate=False, big=True, split=draw(st.sampled_from([0, 0, 3, 8])),
+                     die=draw(D.die_case(units=[base], max_regions=5, min_side=100, max_side=800)))
+        hist = [draw(op_s(base, allow_scale=False, allow_bad=draw(_i(0, 3)) == 0, kinds=GEOMETRIC)) for _ in range(draw(_i(1, 2)))]
+        return dict(probe=probe, history=hist)
+    probe = draw(op_s(base, allow_scale=True, allow_bad=False, kinds=GEOMETRIC))
+    probe["mutate"] = False
+    hist = [draw(op_s(base, allow_scale=True, allow_bad=draw(_i(0, 3)) == 0, kinds=GEOMETRIC)) for _ in range(draw(_i(1, 2)))]
+    return dict(probe=probe, history=hist)
+
+
 def subchecks():
-    return [Sub("histories", run_case, strategy=case_s(), n_quick=1600, n_thorough=40000, reset=False, shrink_quick=True,
+    return [Sub("scales", run_case, strategy=scales_s(), n_quick=6000, n_thorough=300000, reset=False, shrink_quick=True,
+                required=("history-at-a-smaller-scale", "history-100x-larger", "large-decimal-die-after-small-designs",
+                          "yaml-text-probe-after-a-document-with-a-directive")),
+            Sub("histories", run_case, strategy=case_s(), n_quick=1600, n_thorough=40000, reset=False, shrink_quick=True,
                 required=tuple("probe-" + f for f in FAMILIES) + ("history-with-degenerate-netlist", "history-mutates-results",
                                                                    "history-with-rejected-design", "history-100x-larger", "probe-rejected",
                                                                    "history-with-other-robdd-construction"))]
